@@ -341,6 +341,35 @@ def _check_budget_site(ck, cm, R, fa, ins):
           "the accounted size does not come from the size estimator", fa.where(ins))
 
 
+def check_estimates_bounded_below(ck, cm, R):
+    """The accounts are only honest if a recorded size cannot be negative: an estimator that
+    extrapolates (a difference of two measurements scaled up) must bound its result below by something
+    that was measured.  Every return of a size estimator of the cache whose value involves a subtraction
+    is a `max(<extrapolation>, <measured size>)`."""
+    n = 0
+    for name, m in cm.cls.methods.items():
+        if "mem_usage" not in name and "estimate" not in name and "size" not in name:
+            continue
+        fa = FA(ck, m)
+        for r in fa.returns():
+            if r.value is None:
+                continue
+            e = fa.expand(r.value)
+            subs = [x for x in ast.walk(e) if isinstance(x, ast.BinOp) and isinstance(x.op, ast.Sub)] + \
+                   [x for x in ast.walk(e) if isinstance(x, ast.UnaryOp) and isinstance(x.op, ast.USub)]
+            if not subs:
+                continue
+            n += 1
+            top = r.value
+            ok = isinstance(top, ast.Call) and isinstance(top.func, ast.Name) and top.func.id == "max" and len(top.args) >= 2 and \
+                any(not any(isinstance(y, ast.BinOp) and isinstance(y.op, ast.Sub) for y in ast.walk(fa.expand(a))) for a in top.args)
+            ck.ob(R, fa.key(r, "estimate-bounded-below"), ok,
+                  "the extrapolated size is bounded below by a measured one" if ok else
+                  "`%s` extrapolates from a difference of two sample measurements and can come out negative (heavy rows in the small sample): the entry "
+                  "is then resident with a negative size, memory_usage goes down on insertion and the budget is exceeded" % A.short(r.value, 60), fa.where(r))
+    ck.ob(R, CACHE_CLASS + "::estimate-bounded-below::scan", True, "%d extrapolating size estimates" % n, "")
+
+
 def check_queue_unbounded(ck, cm, R):
     ini = FA(ck, cm.init)
     for st in ini.stmts(ast.Assign):
@@ -463,6 +492,7 @@ def check(ck):
     ck.run(check_budget, ck, cm)
     ck.run(check_lru, ck, cm)
     ck.run(check_queue_unbounded, ck, cm, "C06.R3")
+    ck.run(check_estimates_bounded_below, ck, cm, "C06.R1")
     ck.run(check_replace_on_put, ck, cm, "C06.R4")
     ck.run(check_forget, ck, cm, "C06.R5")
     # the accounts are only honest if each public operation updates map, queue and counter in ONE critical
